@@ -26,6 +26,7 @@ def run(ctx) -> None:
     ctx.guard("C10.int-map", int_map)
     ctx.guard("C10.aggregate", aggregate_records)
     ctx.guard("C10.mask-range", mask_range)
+    ctx.guard("C10.tip-table", tip_table)
     ctx.guard("C10.aggregate", aggregate_evo)
     ctx.guard("C10.aggregate", evo_member_conversion)
     ctx.guard("C10.any", any_rules)
@@ -139,6 +140,37 @@ def _static_table(ctx, f, e: ast.AST):
     return None
 
 
+def _int_map_evaluated(ctx, rule: str, f) -> bool:
+    """Fallback for a lookup written in a form the structural rule does not know: int_to_tip is interpreted (rules/init_model.py,
+    nothing of the repository is executed) for the numbers -3..12; 1..8 must give Tip.T1..T8, everything else must raise.
+    -> False when the evaluation is incomplete (the caller then reports INCONCLUSIVE)."""
+    from . import init_model as IM
+
+    members = _tip_table(ctx, rule)
+    enums = {"Tip": dict(members)}
+    got = {}
+    for k in range(-3, 13):
+        kind, val = IM.run_function(f, {f.params[0]: k}, ctx.prog, enums)
+        if kind == "raise":
+            got[k] = None
+        elif kind == "return" and isinstance(val, IM.EnumVal):
+            got[k] = val.member
+        else:
+            return False
+    bad = [(k, m) for k, m in sorted(got.items()) if m != (f"T{k}" if 1 <= k <= 8 else None)]
+    c = f"{f.qualname}/evaluated"
+    if bad:
+        k, m = bad[0]
+        ctx.rep.refuted(rule, c, f"tip number {k} " + (f"is mapped to Tip.{m}" if m is not None else "is rejected") + (f"; the property requires Tip.T{k}" if 1 <= k <= 8 else "; a number outside 1..8 must be rejected"), where=f.where())
+    else:
+        ctx.rep.holds(rule, c, "1..8 -> Tip.T1..T8 and -3..0, 9..12 are rejected (evaluated for the 16 numbers; bounded argument)", where=f.where())
+    # the refusal is a ValueError
+    fv = ctx.fv(f)
+    raises = [raise_class(fv, s_)[0] for s_ in own_walk(f.node) if isinstance(s_, ast.Raise)]
+    ctx.rep.check(bool(raises) and set(raises) == {"ValueError"}, rule, f"{f.qualname}/else", "everything else raises ValueError", "numbers outside 1..8 do not end in raise ValueError", where=f.where())
+    return True
+
+
 def int_map(ctx) -> None:
     rule = "C10.int-map"
     f = ctx.prog.require_func("int_to_tip", rule)
@@ -182,7 +214,8 @@ def int_map(ctx) -> None:
                 other = r.comparators[0] if is_name(r.left, arg) else r.left
                 ks.append(other)
         if len(ks) != 1:
-            ctx.rep.inconclusive(rule, f"{f.qualname}/return[{show(v)[:30]}]", f"return `{stmt_key(n.ast)}` is not guarded by exactly one `{arg} == k` (unrecognised lookup)", where=f.where(n.ast))
+            if not _int_map_evaluated(ctx, rule, f):
+                ctx.rep.inconclusive(rule, f"{f.qualname}/return[{show(v)[:30]}]", f"return `{stmt_key(n.ast)}` is not guarded by exactly one `{arg} == k` (unrecognised lookup)", where=f.where(n.ast))
             return
         k = ks[0]
         if isinstance(k, ast.Constant):
@@ -207,7 +240,8 @@ def int_map(ctx) -> None:
                     for i, m in enumerate(seq):
                         pairs[int(start.const_value()) + i] = m
                     continue
-            ctx.rep.inconclusive(rule, f"{f.qualname}/return[{show(v)[:30]}]", "unrecognised table loop", where=f.where(n.ast))
+            if not _int_map_evaluated(ctx, rule, f):
+                ctx.rep.inconclusive(rule, f"{f.qualname}/return[{show(v)[:30]}]", "unrecognised table loop", where=f.where(n.ast))
             return
     if table_form is not None:
         n, tab = table_form
@@ -333,6 +367,60 @@ def _cond_eval(ctx, module, e: ast.AST, depth: int):
         table = {ast.Eq: a == b, ast.NotEq: a != b, ast.Lt: a < b, ast.LtE: a <= b, ast.Gt: a > b, ast.GtE: a >= b, ast.Is: a == b, ast.IsNot: a != b}
         return table.get(type(op))
     return None
+
+
+def tip_table(ctx) -> None:
+    """The tip field of an A/D record, evaluated for a table of tip arguments: prepare_aspirate_dispense_parameters (with
+    int_to_tip and any new helpers) is interpreted by the interpreter of rules/init_model.py - nothing of the repository is
+    executed - for single tips, numbers, collections of every kind and invalid values; the field it returns (or the fact that
+    it raises) is compared with what the property prescribes."""
+    from . import init_model as IM
+
+    rule = "C10.tip-table"
+    v = ctx.prog.require_func("prepare_aspirate_dispense_parameters", rule)
+    members = _tip_table(ctx, rule)
+    enums = {"Tip": dict(members)}
+
+    def T(name):
+        return IM.EnumVal(members[name], "Tip", name)
+
+    RAISE = "raises"
+    cases = [("Tip.Any", T("Any"), "")]
+    for i in range(1, 9):
+        cases.append((f"Tip.T{i}", T(f"T{i}"), 2 ** (i - 1)))
+        cases.append((str(i), i, 2 ** (i - 1)))
+    cases += [("0", 0, RAISE), ("9", 9, RAISE), ("-1", -1, RAISE), ("2.0", 2.0, RAISE), ("None", None, RAISE),
+              ("[1]", [1], 1), ("[8]", [8], 128), ("[Tip.T3]", [T("T3")], 4), ("(2,)", (2,), 2), ("[1, 2]", [1, 2], 3), ("(1, 4)", (1, 4), 9), ("[Tip.T1, 2]", [T("T1"), 2], 3),
+              ("[1, 1]", [1, 1], 1), ("[Tip.T3, 3]", [T("T3"), 3], 4), ("[Tip.T3, 4]", [T("T3"), 4], 12), ("[1, 2, 3, 4, 5, 6, 7, 8]", list(range(1, 9)), 255),
+              ("[Tip.Any]", [T("Any")], RAISE), ("[1, Tip.Any]", [1, T("Any")], RAISE), ("[0]", [0], RAISE), ("[9]", [9], RAISE), ("[2.0]", [2.0], RAISE), ("[[1, 2]]", [[1, 2]], RAISE),
+              ("[None]", [None], RAISE)]
+    bad = None
+    unknown = None
+    n = 0
+    for text, tip, want in cases:
+        params = dict(rack_label="Plate", position=1, volume=10.0, liquid_class="", tip=tip, rack_id="", tube_id="", rack_type="", forced_rack_type="", max_volume=None)
+        kind, val = IM.run_function(v, {k: x for k, x in params.items() if k in v.params}, ctx.prog, enums)
+        n += 1
+        if kind == "raise":
+            got = RAISE
+        elif kind == "return" and isinstance(val, (tuple, list)) and len(val) == 9 and val[4] is not IM.UNK:
+            got = val[4]
+            got = int(got) if isinstance(got, int) and not isinstance(got, bool) else got
+        else:
+            unknown = unknown or text
+            continue
+        if got != want and bad is None:
+            bad = (text, want, got)
+    ctx.rep.touch(v)
+    c = f"{v.qualname}/tip-field"
+    if bad is not None:
+        text, want, got = bad
+        ctx.rep.refuted(rule, c, f"for tip={text} the validator {'raises' if got == RAISE else f'returns the mask field {got!r}'}; the property requires "
+                        f"{'a rejection (ValueError)' if want == RAISE else f'the field {want!r}'}", where=v.where())
+    elif unknown is not None:
+        ctx.rep.inconclusive(rule, c, f"the tip field could not be evaluated for tip={unknown} (construct outside the interpreter's fragment)", where=v.where())
+    else:
+        ctx.rep.holds(rule, c, f"the tip field / the rejection is as prescribed for all {n} tip arguments of the evaluation table (bounded argument)", where=v.where())
 
 
 def mask_range(ctx) -> None:
